@@ -182,6 +182,27 @@ func (c *checker) checkOne(name string, cd coder, stream bool, m ref.Msg, gs int
 		c.viol("C01/"+name+"/roundtrip-differs", diff, d)
 		return
 	}
+	// stream coder: the frame is followed by further bytes in the same buffer (the next frames of the stream): the decoder
+	// consumes exactly the frame the encoder produced and yields the same message
+	if stream {
+		follow := append(append([]byte(nil), want...), want...)
+		follow = append(follow, 0xff, 0x01, 0x02)
+		var dm2 message.Message
+		dm2.Options = make(message.Options, 0, len(m.Opts)+2)
+		n2, err2 := cd.Decode(follow, &dm2)
+		if err2 != nil {
+			c.viol("C01/"+name+"/decode-error-with-following-bytes", fmt.Sprintf("Decode(Encode(m) + next frames): %v", err2), d)
+			return
+		}
+		if n2 != len(want) {
+			c.viol("C01/"+name+"/consumed-mismatch-with-following-bytes", fmt.Sprintf("Decode consumed %d bytes of a buffer that starts with a %d-byte frame", n2, len(want)), d)
+			return
+		}
+		if diff := equalDecoded(stream, m, dm2); diff != "" {
+			c.viol("C01/"+name+"/roundtrip-differs-with-following-bytes", diff, d)
+			return
+		}
+	}
 	// too-small destinations
 	var lens []int
 	if size <= 160 {
